@@ -263,6 +263,12 @@ def run_impl(case):
         args = dict(fnr=fl(case["fnr"]), fpr=fl(case["fpr"]), fnr_support=case["fs"], fpr_support=case["ps"])
         if not case["default_sigma"]:
             args.update(sigma_pos=fl(case["sp"]), sigma_neg=fl(case["sn"]))
+        # history: another model requested first, with rates 4e-9 away; every request is answered from its own rates
+        warm = dict(args, fnr=min(args["fnr"] + 4e-9, 0.999999), fpr=max(args["fpr"] - 4e-9, 1e-12))
+        try:
+            NormalDataset.from_metrics(**warm)
+        except (ValueError, OverflowError, ZeroDivisionError):
+            pass
         ds = NormalDataset.from_metrics(**args)
         one_minus = Fraction(1) - F(case["fpr"])
         return {"mu_pos": enc(float(ds.mu_pos)), "mu_neg": enc(float(ds.mu_neg)), "sp": enc(float(ds.sigma_pos)),
